@@ -31,7 +31,7 @@ from ..estimation.debug_utils import checkThreeSigmaObservation
 from ..parallel.agent_propagation import PropagateExecutor, PropagateRegistration
 from ..parallel.estimate_prediction import EstPredictExecutor, EstPredictRegistration
 from ..parallel.estimate_update import EstUpdateExecutor, EstUpdateRegistration
-from ..physics.time.stardate import JulianDate, datetimeToJulianDate
+from ..physics.time.stardate import JulianDate, datetimeToJulianDate, julianDateToDatetime
 from .config.agent_config import AgentConfig, SensingAgentConfig
 
 # Type Checking Imports
@@ -275,6 +275,27 @@ class Scenario:
             for agent in agents:
                 agent_filters = agent.getFilterSteps()
                 output_data.extend(filter_step for filter_step in agent_filters)
+
+        # [NOTE]: observations, missed observations & filter steps of the steps since the previous
+        #   output refer to the epochs of those steps. The clock only creates epoch rows up to the
+        #   configured stop time, so when the scenario is propagated beyond it the missing epoch
+        #   rows are written together with the rows that refer to them.
+        row_epochs = {float(row.julian_date) for row in output_data if hasattr(row, "julian_date")}
+        known_epochs = {
+            float(epoch.julian_date)
+            for epoch in self.database.getData(
+                Query(Epoch).filter(Epoch.julian_date.in_(row_epochs)),
+            )
+        }
+        output_data = [
+            Epoch(
+                julian_date=julian_date,
+                timestampISO=julianDateToDatetime(JulianDate(julian_date)).isoformat(
+                    timespec="microseconds",
+                ),
+            )
+            for julian_date in sorted(row_epochs - known_epochs)
+        ] + output_data
 
         # Commit data to output DB
         self.database.bulkSave(output_data)
